@@ -701,6 +701,13 @@ func (s *DB) getHistoricRootsAndNodes(
 		}
 		parent, err := crdt.Load(ctx, s.crdt.Config, &parentName, *parentRoot)
 		if err != nil {
+			// Only a missing object (left over from an interrupted earlier
+			// run) may be passed over; on any other error the version object
+			// must stay, or the nodes only it refers to can never be found
+			// and reclaimed again.
+			if !isNoSuchKey(err) {
+				return nil, nil, fmt.Errorf("load %s: %w", parentName, err)
+			}
 			if logFunc != nil {
 				logFunc(fmt.Sprintf("error loading parent %v: %v\n", parentRoot, err))
 			}
@@ -709,6 +716,9 @@ func (s *DB) getHistoricRootsAndNodes(
 		for childName, childRoot := range children {
 			child, err := crdt.Load(ctx, s.crdt.Config, &childName, *childRoot)
 			if err != nil {
+				if !isNoSuchKey(err) {
+					return nil, nil, fmt.Errorf("load %s: %w", childName, err)
+				}
 				if logFunc != nil {
 					logFunc(fmt.Sprintf("error loading child %v: %v\n", childName, err))
 				}
@@ -724,6 +734,9 @@ func (s *DB) getHistoricRootsAndNodes(
 					return true, nil
 				})
 			if err != nil {
+				if !isNoSuchKey(err) {
+					return nil, nil, fmt.Errorf("diff %s: %w", childName, err)
+				}
 				if logFunc != nil {
 					logFunc(fmt.Sprintf("error diffing %s: %v\n", childName, err))
 				}
